@@ -16,6 +16,7 @@ mod c_parse;
 mod c_scope;
 mod c_round;
 mod c_diag;
+mod c_unify;
 
 fn main() {
     colored::control::set_override(false);
@@ -33,6 +34,7 @@ fn main() {
         "record-relayout" => c_lex::record_relayout(rest),
         "record-scope" => c_scope::record(rest),
         "roundtrip" => c_round::main(rest),
+        "record-unify" => c_unify::record(rest),
         "replay-listing" => c_diag::replay_listing(rest),
         "plant-scope" => c_diag::plant_scope(rest),
         "plant-type" => c_diag::plant_type(rest),
@@ -45,6 +47,7 @@ fn main() {
             "pipeline" => c_pipe::worker(&rest[1..]),
             "record" => c_pipe::record_worker(&rest[1..]),
             "roundtrip" => c_round::worker(),
+            "unify" => c_unify::worker(),
             "plant-type" => c_diag::plant_type_worker(),
             k => {
                 eprintln!("unknown worker kind {k}");
